@@ -112,6 +112,7 @@ def gen_world(rng: random.Random):
                       "nmodes": rng.randint(1, 4), "p_nan": rng.choice([0.0, 0.2, 0.5, 0.8]),
                       "dups": rng.random() < 0.4, "empty_cols": rng.random() < 0.3,
                       "stable_mode": rng.random() < 0.25, "near_twins": rng.random() < 0.25,
+                      "retable": rng.random() < 0.5,
                       "cov": variant == "SSI" and rng.random() < 0.25})
             w["ordmin"] = rng.choice([0, 0, 0, 1, 2, w["ncols"] // 2])
     if variant in ("SSI", "pLSCF") and rng.random() < 0.4:
@@ -619,7 +620,12 @@ class Driver:
                     continue
                 if r < sw["p_drop"] + sw["p_dup"]:
                     self.inc("fault.fired.evt_dup")
-                    self.pending.append(copy.deepcopy(e))
+                    e_dup = copy.deepcopy(e)
+                    if e_dup["ev"] == "click":
+                        # what a duplicated button press is on a real desktop: the second press of a fast double click,
+                        # which the backend delivers as an ordinary press event flagged dblclick
+                        e_dup["dblclick"] = True
+                    self.pending.append(e_dup)
                 elif r < sw["p_drop"] + sw["p_dup"] + sw["p_swap"] and self.generated < sw["nevents"]:
                     self.generated += 1
                     e2 = self._gen_event()
@@ -663,7 +669,8 @@ class Driver:
                 tksim.deliver(canvas, ev)
             elif kind == "click":
                 px, py = self._pixel(e)
-                ev = tksim.make_mouse(canvas, "button_press_event", px, py, button=e["button"], mods=e.get("mods", ()))
+                ev = tksim.make_mouse(canvas, "button_press_event", px, py, button=e["button"], mods=e.get("mods", ()),
+                                      dblclick=bool(e.get("dblclick")))
                 ax = self.ax()
                 inside = ev.inaxes is ax and ev.xdata is not None
                 if inside and e.get("snap"):
@@ -890,6 +897,18 @@ def run_case(seed, tier="quick", case=None, known=()):
         d += 1
         if res["violations"]:
             break
+        if d == 1 and w.get("retable") and w["source"] == "table" and w["variant"] in ("SSI", "pLSCF"):
+            # the analyst was not satisfied, tuned something and ran again: the same algorithm object now holds ANOTHER pole
+            # table, and the next dialog must work on that one
+            from pyoma2.algorithms.data.result import SSIResult, pLSCFResult
+
+            Fn2, Xi2, Phi2, Lab2, cov2 = gen_table(dict(w, seed=w["seed"] + 7919))
+            if w["variant"] == "SSI":
+                kw2 = dict(Fn_poles_cov=cov2[0], Xi_poles_cov=cov2[1], Phi_poles_cov=cov2[2]) if cov2 is not None else {}
+                alg._set_result(SSIResult(Fn_poles=Fn2, Xi_poles=Xi2, Phi_poles=Phi2, Lab=Lab2, **kw2))
+            else:
+                alg._set_result(pLSCFResult(Fn_poles=Fn2, Xi_poles=Xi2, Phi_poles=Phi2, Lab=Lab2))
+            res["counters"]["probe.new_pole_table_between_two_dialogs"] = 1
         if ops_in is None:
             if d >= ndialogs:
                 break
